@@ -55,6 +55,39 @@ Section Spec.
   Qed.
 End Spec.
 
+Section Zipper.
+  Variable near : point -> point -> bool.
+  (* the zipper loop of the executable model is the index loop of the source *)
+  Lemma flood_jz_index fuel : forall ci cluster pre_rev suf,
+    flood_jz near fuel ci cluster pre_rev suf
+    = flood_j_idx near fuel ci cluster (rev pre_rev ++ suf) (length pre_rev).
+  Proof.
+    induction fuel as [|f IH]; intros ci cluster pre suf; [reflexivity|].
+    cbn [flood_jz flood_j_idx].
+    assert (Hlen : length pre = length (rev pre)) by (symmetry; apply rev_length).
+    destruct suf as [|pj suf'].
+    - rewrite app_nil_r, Hlen, Nat.ltb_irrefl. rewrite rev_append_rev, app_nil_r. reflexivity.
+    - replace (length pre <? length (rev pre ++ pj :: suf')) with true
+        by (symmetry; apply Nat.ltb_lt; rewrite app_length, <- Hlen; cbn; lia).
+      unfold idx. rewrite Hlen, nth_error_len_app. cbn [unwrap bind].
+      destruct (near ci pj).
+      + unfold swap_remove. destruct (vpop suf') as [[l y]|] eqn:E.
+        * apply vpop_some in E. subst suf'.
+          assert (Ev : vpop (rev pre ++ pj :: l ++ [y]) = Some (rev pre ++ pj :: l, y)).
+          { apply vpop_some. rewrite <- app_assoc. reflexivity. }
+          rewrite Ev.
+          replace (length (rev pre) =? length (rev pre ++ pj :: l)) with false
+            by (symmetry; apply Nat.eqb_neq; rewrite app_length; cbn; lia).
+          rewrite nth_error_len_app, firstn_len_app, skipn_S_len_app.
+          cbn [bind]. rewrite IH, <- Hlen. reflexivity.
+        * apply vpop_none in E. subst suf'.
+          assert (Ev : vpop (rev pre ++ [pj]) = Some (rev pre, pj)) by (apply vpop_some; reflexivity).
+          rewrite Ev. rewrite Nat.eqb_refl. cbn [bind]. rewrite IH, app_nil_r, <- Hlen. reflexivity.
+      + rewrite IH. cbn [rev length]. rewrite <- app_assoc, <- Hlen. reflexivity.
+  Qed.
+
+End Zipper.
+
 Section ClusterP.
   Variable bins : point -> list bin.
   Variable near : point -> point -> bool.
@@ -200,12 +233,12 @@ Section ClusterP.
   (* ---- largest_cluster ---- *)
   Lemma flood_j_ok fuel : forall ci cluster points j,
     length points - j < fuel ->
-    exists c' p', flood_j near fuel ci cluster points j = Ok (c', p') /\
+    exists c' p', flood_j_idx near fuel ci cluster points j = Ok (c', p') /\
                   Permutation (c' ++ p') (cluster ++ points) /\
                   (grown near cluster -> In ci cluster -> grown near c').
   Proof.
     induction fuel as [|f IH]; intros ci cluster points j Hf; [lia|].
-    cbn [flood_j]. destruct (j <? length points) eqn:Ej.
+    cbn [flood_j_idx]. destruct (j <? length points) eqn:Ej.
     - apply Nat.ltb_lt in Ej.
       destruct (nth_error points j) as [pj|] eqn:Hn; [|apply nth_error_None in Hn; lia].
       unfold idx. rewrite Hn. cbn [unwrap bind].
@@ -235,7 +268,7 @@ Section ClusterP.
       destruct (nth_error cluster i) as [ci|] eqn:Hn; [|apply nth_error_None in Hn; lia].
       unfold idx. rewrite Hn. cbn [unwrap bind].
       destruct (flood_j_ok (S (length points)) ci cluster points 0) as (c1 & p1 & H1 & HP1 & Hg1); [lia|].
-      rewrite H1. cbn [bind].
+      unfold flood_j. rewrite flood_jz_index. cbn [rev app length]. rewrite H1. cbn [bind].
       assert (Hl : length c1 + length p1 = length cluster + length points).
       { apply Permutation_length in HP1. rewrite !app_length in HP1. exact HP1. }
       destruct (IH c1 p1 (S i)) as (c' & p' & Hr & HPr & Hg'); [lia| |].
